@@ -12,7 +12,8 @@ import Glom.Model.C19
     * stdout = json.dumps(glom(load(target text), spec), indent, sort_keys=True) + newline,
       exit 0 (with --scalar a scalar result is printed bare);
     * a GlomError gives exit 1 and a message naming the error class;
-    * an unreadable or malformed target gives a usage error, not a result.
+    * an unreadable (missing, a directory, bytes that are no text — file or standard input) or
+      malformed target gives a usage error, not a result.
   Where the property is silent (`Expect.silent`) only the correspondence speaks.
 -/
 namespace Glom.C19
@@ -52,15 +53,19 @@ inductive TargetSrc where
   | unspecified
   deriving DecidableEq, Repr
 
+/-- standard input as the target: its text, unless it cannot be read (bytes that are no text) -/
+def refStdin (w : World) : TargetSrc :=
+  if w.stdinErr.isSome then .unreadable else .text w.stdin
+
 def refTargetText (X : Ext T S R) (a : Argv) (w : World) : TargetSrc :=
   match nonEmpty (posTexts a).2, nonEmpty a.targetFile with
-  | some t, none => if t == "-" then .text w.stdin else .text t
+  | some t, none => if t == "-" then refStdin w else .text t
   | none, some p =>
-    if p == "-" then .text w.stdin
+    if p == "-" then refStdin w
     else match X.readFile p with
       | some t => .text t
       | none => .unreadable
-  | none, none => if w.stdinTty then .unspecified else .text w.stdin
+  | none, none => if w.stdinTty then .unspecified else refStdin w
   | some _, some _ => .unspecified
 
 /-- the spec a text denotes in the default format: a Python literal when it starts like one,
@@ -130,7 +135,26 @@ def checkC19 (X : Ext T S R) (a : Argv) (w : World) (hostile : Bool) (obs : Obs)
 
 /-! ### well-formedness of the extracted facts -/
 
+/-- the handler around the loader of every target format catches whatever that loader raises on
+    text: it names `Exception` itself, or a class of the MRO of EVERY class the probe saw the
+    loader raise (the probe: the real loaders on a catalogue of malformed texts, grouped by
+    raised class — regenerated with the facts) -/
+def catchWF (loaders : List (String × String)) (handlers : List (String × List String))
+    (raises : List (String × String × List String)) : Bool :=
+  loaders.all (fun l =>
+    match handlers.find? (·.1 == l.1) with
+    | none => false
+    | some p => p.2.contains "Exception" ||
+        (raises.all (fun r => !(r.1 == l.2) || r.2.2.any p.2.contains)))
+
+/-- a read of text (file in text mode, standard input) fails with an OSError or a UnicodeError:
+    the handler names both, or `Exception` -/
+def readCatchWF (names : List String) : Bool :=
+  names.contains "Exception" || (names.contains "OSError" && names.contains "UnicodeError")
+
 def WF (F : Facts) : Bool :=
+  catchWF F.targetLoaders F.loadCatch F.loaderRaises &&
+  readCatchWF F.specReadCatch && readCatchWF F.targetReadCatch && readCatchWF F.stdinReadCatch &&
   F.specBranches == [("python", "python-literal"), ("json", "json"), ("python-full", "exec")] &&
   F.reprBranches == ["python"] &&
   F.firstChars == literalStart &&
@@ -143,15 +167,28 @@ def WF (F : Facts) : Bool :=
 /-- the hand-modelled control flow of `glom_cli`, `main`, `mw_handle_target` and the order of
     `mw_get_target`'s steps is the one in the source -/
 def shapeWF (cliShape : List String) (mainShape : String) (mwSteps : List String) (emptyFirst : Bool)
-    (loadCatch : List String) (middlewares : List String) : Bool :=
+    (middlewares : List String) : Bool :=
   cliShape == ["debug-inspect", "glom-or-print-class-colon-message-return-1", "indent-0-none",
                "scalar-str-else-dumps-sorted", "return-none"] &&
   mainShape == "cmd = get_command() ; return cmd.run(argv) or 0" &&
   mwSteps == ["spec_text, target_text = (None, None)", "if len(posargs_) == 2:", "if spec_text and spec_file:",
               "if not spec_text:", "if target_text and target_file:",
               "target = mw_handle_target(target_text, target_format)", "return next_(spec=spec, target=target)"] &&
-  emptyFirst && loadCatch == ["Exception"] &&
+  emptyFirst &&
   middlewares == ["mw_get_target", "handler:glom_cli"]
+
+/-- the probe is not vacuous and says what it is trusted for: every loader kind was seen to raise
+    at least two different classes, each an `Exception` subclass whose MRO starts with itself; and
+    every place where cli.py reads text (spec file, target file, standard input — found by the
+    extractor as every `.read()` / `open()` call of the module) sits under a handler that turns an
+    OSError and a UnicodeError into a UsageError -/
+def probeWF (raises : List (String × String × List String))
+    (readSites : List (String × String × List String)) : Bool :=
+  ["json", "yaml-safe", "toml", "python-literal"].all (fun k =>
+    ((raises.filter (·.1 == k)).map (·.2.1)).eraseDups.length ≥ 2) &&
+  raises.all (fun r => r.2.2.head? == some r.2.1 && r.2.2.contains "Exception") &&
+  ["spec-file", "target-file", "stdin"].all (fun k => readSites.any (·.1 == k)) &&
+  readSites.all (fun s => ["spec-file", "target-file", "stdin"].contains s.1 && readCatchWF s.2.2)
 
 def entryPoints : List String :=
   ["main", "console_main", "get_command", "glom_cli", "mw_get_target", "mw_handle_target", "<module>"]
@@ -170,8 +207,12 @@ def neverExecutesWF (edges : List (String × String × String)) (dangerous : Lis
   let g : Graph := ⟨edges⟩
   let fuel := edges.length + 1
   let guard := "spec_format == 'python-full'"
-  let safe := reach g [guard] fuel entryPoints
-  let all := reach g [] fuel entryPoints
+  -- every function of cli.py but the python-full chain itself is a root (helpers such as
+  -- `_read_stdin` included, whether or not a call to them was recognised)
+  let roots := entryPoints ++ fns.filter (fun f => !(["_eval_python_full_spec", "_compile_code"].contains f) &&
+    !entryPoints.contains f)
+  let safe := reach g [guard] fuel roots
+  let all := reach g [] fuel roots
   dangerous.all (fun d => !safe.contains d) &&
   all.contains "exec" && all.contains "compile" &&
   -- the only callers of the exec chain
